@@ -14,6 +14,10 @@ pub struct ExPoll<T>(std::task::Poll<T>);
 pub open spec fn ready_err<T, E>(r: Poll<Result<T, E>>) -> bool {
     match r { Poll::Ready(Err(_)) => true, _ => false }
 }
+/// `Some(e)` iff the poll result is `Ready(Err(e))`
+pub open spec fn ready_errv<T, E>(r: Poll<Result<T, E>>) -> Option<E> {
+    match r { Poll::Ready(Err(e)) => Some(e), _ => None }
+}
 /// `Some(v)` iff the poll result is `Ready(Ok(v))`
 pub open spec fn ready_ok<T, E>(r: Poll<Result<T, E>>) -> Option<T> {
     match r { Poll::Ready(Ok(v)) => Some(v), _ => None }
